@@ -254,3 +254,45 @@ impl Num for IdTag {
         (self.id as i128) | ((self.tag as i128) << 32)
     }
 }
+
+/// Byte-array newtypes of unusual sizes (3 and 12 bytes, alignment 1). Only the first byte carries the
+/// harness's small universe, so lexicographic order and little-endian numeric order coincide.
+macro_rules! byte_array_num {
+    ($name:ident, $n:expr, $label:expr) => {
+        #[repr(transparent)]
+        #[derive(Copy, Clone, Default, Debug, PartialEq, Eq, PartialOrd, Ord, Hash, Pod, Zeroable)]
+        pub struct $name(pub [u8; $n]);
+        impl Num for $name {
+            const SIZE: usize = $n;
+            const ALIGN: usize = 1;
+            const SIGNED: bool = false;
+            const NAME: &'static str = $label;
+            fn from_i(i: i128) -> Self {
+                let mut a = [0u8; $n];
+                a[0] = i as u8;
+                $name(a)
+            }
+            fn to_i(self) -> i128 {
+                let mut x = 0i128;
+                for j in 0..($n as usize).min(15) {
+                    x |= (self.0[j] as i128) << (8 * j);
+                }
+                x
+            }
+        }
+    };
+}
+byte_array_num!(B3, 3, "b3");
+byte_array_num!(B12, 12, "b12");
+
+/// The zero-sized value type: a tree of `()` values is a set of keys.
+impl Num for () {
+    const SIZE: usize = 0;
+    const ALIGN: usize = 1;
+    const SIGNED: bool = false;
+    const NAME: &'static str = "unit";
+    fn from_i(_: i128) -> Self {}
+    fn to_i(self) -> i128 {
+        0
+    }
+}
